@@ -44,4 +44,109 @@ mod verif_replay_proto {
         w.write_str(&s);
         assert!(w.has_error() || w.get_writer().len() > 4096);
     }
+
+    fn boundary_values() -> Vec<u64> {
+        let mut v = vec![0u64, 1, 7, 8, 9, u64::MAX, u64::MAX - 1, 0x1234_5678_9abc_def0, 0x8000_0000_0000_0000];
+        for k in 0..9u32 {
+            let b = 4 + 8 * k;
+            if b < 64 {
+                let p = 1u64 << b;
+                v.extend_from_slice(&[p - 1, p, p + 1, p | 0x5, (p << 1).wrapping_sub(1), p + (p >> 1)]);
+            }
+        }
+        for s in 0..64u32 {
+            v.push(1u64 << s);
+            v.push((1u64 << s).wrapping_sub(1));
+            v.push(0xA5A5_A5A5_A5A5_A5A5u64 >> s);
+        }
+        v
+    }
+
+    #[test]
+    fn verif_replay_uint_roundtrip() {
+        for v in boundary_values() {
+            let mut w = DefaultProtocolWriter::new(Vec::new());
+            w.write_uint(v);
+            w.write_uint(0x77); // something follows
+            let buf = w.get_writer().clone();
+            let mut r = DefaultProtocolReader::new(&buf[..]);
+            let x = r.read_uint();
+            let y = r.read_uint();
+            assert!(!w.has_error() && !r.has_error() && x == v && y == 0x77,
+                "write_uint({:#x}) -> bytes {:02x?} -> read_uint {:#x}, next {:#x}, reader error {}", v, buf, x, y, r.has_error());
+        }
+    }
+
+    #[test]
+    fn verif_replay_uint_cut_off() {
+        for v in boundary_values() {
+            let mut w = DefaultProtocolWriter::new(Vec::new());
+            w.write_uint(v);
+            let buf = w.get_writer().clone();
+            for cut in 0..buf.len() {
+                let mut r = DefaultProtocolReader::new(&buf[..cut]);
+                let x = r.read_uint();
+                assert!(r.has_error() && x == 0, "image of {:#x} cut at {} of {} read as {:#x} without error", v, cut, buf.len(), x);
+            }
+        }
+    }
+
+    #[test]
+    fn verif_replay_str_roundtrip() {
+        let mut samples: Vec<String> = Vec::new();
+        for n in [0usize, 1, 2, 14, 15, 16, 17, 31, 255, 256, 257, 1000, 4094, 4095] {
+            samples.push("a".repeat(n));
+            if n >= 2 { samples.push(format!("{}é", "b".repeat(n - 2))); }
+            if n >= 4 { samples.push(format!("😀{}", "c".repeat(n - 4))); }
+        }
+        for s in samples {
+            let mut w = DefaultProtocolWriter::new(Vec::new());
+            w.write_str(&s);
+            w.write_option_string(&Some(s.clone()));
+            w.write_option_string(&None);
+            w.write_boolean(true);
+            w.write_boolean(false);
+            let buf = w.get_writer().clone();
+            let mut r = DefaultProtocolReader::new(&buf[..]);
+            let a = r.read_string();
+            let b = r.read_option_string();
+            let c = r.read_option_string();
+            let d = r.read_boolean();
+            let e = r.read_boolean();
+            assert!(!w.has_error() && !r.has_error() && a == s && b == Some(s.clone()) && c.is_none() && d && !e,
+                "string of {} bytes did not round trip (reader error {})", s.len(), r.has_error());
+            for cut in 0..(1 + s.len()).min(buf.len()) {
+                let mut r = DefaultProtocolReader::new(&buf[..cut]);
+                let a = r.read_string();
+                assert!(r.has_error() && a.is_empty(), "string image of {} bytes cut at {} read without error", s.len(), cut);
+            }
+        }
+    }
+
+    /// sink that fails at the n-th write call
+    struct FailAt { data: Vec<u8>, calls: usize, fail_at: usize }
+    impl std::io::Write for FailAt {
+        fn write(&mut self, buf: &[u8]) -> std::io::Result<usize> {
+            self.calls += 1;
+            if self.calls == self.fail_at {
+                return Err(std::io::Error::new(std::io::ErrorKind::Other, "injected"));
+            }
+            self.data.extend_from_slice(buf);
+            Ok(buf.len())
+        }
+        fn flush(&mut self) -> std::io::Result<()> { Ok(()) }
+    }
+
+    #[test]
+    fn verif_replay_failing_write_is_visible() {
+        for fail_at in 1..12 {
+            let mut w = DefaultProtocolWriter::new(FailAt { data: Vec::new(), calls: 0, fail_at });
+            w.write_uint(0x12345);
+            w.write_str("hello world, this is longer than 16");
+            w.write_boolean(true);
+            w.write_option_string(&None);
+            let failed = w.get_writer().calls >= fail_at;
+            assert!(!failed || w.has_error(), "write call {} failed but has_error() is false", fail_at);
+        }
+    }
 }
